@@ -59,7 +59,7 @@ def make_native(job, w):
         return None
     k = r['kind']
     H = r.get('H', 0)
-    src = PRE % r
+    src = (PRE % r) if 'header' in r else ''
     wv = _wit_int(w, 'vp_wv')
     wf = _wit_int(w, 'vp_wf')
     wx = _wit_int(w, 'vp_wx')
